@@ -890,12 +890,19 @@ async fn op_drop(w: &mut World, log: &mut Log, st: &mut Stats, k: u64) {
 async fn op_connects(w: &mut World, log: &mut Log, st: &mut Stats) {
     let Some(l) = w.bait.as_ref() else { return };
     let mut n = 0;
-    for _ in 0..4 {
+    // until no new connection has arrived for 4 consecutive rounds (at most 40 rounds)
+    let mut quiet = 0;
+    for _ in 0..40 {
         std::thread::sleep(Duration::from_millis(5));
         quiesce().await;
+        let before = n;
         while let Ok((s, _)) = l.accept() {
             drop(s);
             n += 1;
+        }
+        quiet = if n == before { quiet + 1 } else { 0 };
+        if quiet >= 4 {
+            break;
         }
     }
     st.bump("lts_connects_op");
